@@ -41,3 +41,9 @@ Definition run_pjoin (args : list arg) : J :=
 (* two consecutive calls (the second reuses the tables of the first under other parameter names) *)
 Definition run_perdict2 (c : (list arg * datain * expin) * (list arg * datain * expin)) : J :=
   JL [run_perdict (fst c); run_perdict (snd c)].
+
+(* partially keyed inputs: join called directly, and perdictable on top of it *)
+Definition run_pjoinP (ps : list parg) : J :=
+  JL [JS "pjoin"; JL (map (fun r => JL [jkey (fst r); JL (map (fun o => match o with Some v => pv v | None => JS "missing" end) (snd r))]) (pjoinP ps))].
+Definition run_perdictP (ps : list parg) : J :=
+  let r := perdictP fdigits ps in JL [jresult (fst r); jtrace (snd r)].
